@@ -12,6 +12,7 @@ V_MOVE_ASSIGN = '_ZN4bloc5ValueaSEOS0_'
 V_CLEAR       = '_ZN4bloc5Value6_clearEv'
 V_MOVE_CTOR   = '_ZN4bloc5ValueC1EOS0_'
 V_SWAP_RV     = '_ZN4bloc5Value4swapEOS0_'
+V_CLONE       = '_ZNK4bloc5Value5cloneEv'
 V_CTOR_IMAG   = '_ZN4bloc5ValueC1EPNS_9ImaginaryE'
 CTX_ALLOCATE  = '_ZN4bloc7Context8allocateEONS_5ValueE'
 RTE_CTOR      = '_ZN4bloc12RuntimeErrorC2ENS_6EXC_RTE'
@@ -46,11 +47,11 @@ def all_jobs():
     for n, c in (('op_and', 'OpANDExpression'), ('op_ior', 'OpIORExpression'), ('op_xor', 'OpXORExpression'),
                  ('op_pop', 'OpPOPExpression'), ('op_pus', 'OpPUSExpression'), ('op_not', 'OpNOTExpression')):
         J.append(op(n, c, ['C01', 'C02', 'C03', 'C05']))
-    for n, c in (('op_sub', 'OpSUBExpression'), ('op_mul', 'OpMULExpression'), ('op_div', 'OpDIVExpression'), ('op_mod', 'OpMODExpression'),
+    for n, c in (('op_add', 'OpADDExpression'), ('op_sub', 'OpSUBExpression'), ('op_mul', 'OpMULExpression'), ('op_div', 'OpDIVExpression'), ('op_mod', 'OpMODExpression'),
                  ('op_neg', 'OpNEGExpression'), ('op_pos', 'OpPOSExpression')):
         j = op(n, c, ['C01', 'C02', 'C03', 'C05'], weight=10, uf=(n != 'op_pos'))
-        j['replace'] = j['replace'] + [V_CTOR_IMAG]
-        j['cut'] = j['cut'] + [V_CTOR_IMAG]
+        j['replace'] = j['replace'] + [V_CTOR_IMAG] + ([V_CLONE] if n == 'op_add' else [])
+        j['cut'] = j['cut'] + [V_CTOR_IMAG] + ([V_CLONE] if n == 'op_add' else [])
         J.append(j)
     for n, c in (('op_eq', 'OpEQExpression'), ('op_ne', 'OpNEExpression'), ('op_lt', 'OpLTExpression'), ('op_le', 'OpLEExpression'),
                  ('op_gt', 'OpGTExpression'), ('op_ge', 'OpGEExpression')):
@@ -65,6 +66,13 @@ def all_jobs():
                 src = 'blocc/parse_expression.cpp' if kind == 'ctor' else ('blocc/expression_integer.cpp' if cls == 'IntegerExpression' else 'blocc/expression_numeric.cpp')
             J.append(dict(id='const_%s_%s' % (cls, kind), src=src, contract='const_%s.c' % cls, enforce=mg, roots=[mg], replace=rep,
                           cut=rep + [RTE_CTOR, RTE_CTOR_S], props=['C01', 'C02', 'C04', 'C05'], pretty='bloc::%s::%s' % (cls, kind), canaries=['normal']))
+    mg = '_ZNK4bloc12FORStatement4doitERNS_7ContextE'
+    CTX_STUBS = ['_ZN4bloc7Context10topControlEv', '_ZN4bloc7Context14topControlDataEv', '_ZN4bloc7Context12stackControlEPKNS_10ControllerEPv',
+                 '_ZN4bloc7Context14unstackControlEv', '_ZN4bloc7Context9getSymbolEj', '_ZN4bloc7Context13storeVariableEjONS_5ValueE',
+                 '_ZN4bloc10Executable3runERNS_7ContextERKNSt7__cxx114listIPKNS_9StatementESaIS6_EEE']
+    J.append(dict(id='stmt_for_doit', src='blocc/statement_for.cpp', contract='stmt_for.c', enforce=mg, roots=[mg], replace=[VCALL_VALUE] + CTX_STUBS,
+                  cut=[VCALL_VALUE, RTE_CTOR, RTE_CTOR_S] + CTX_STUBS, props=['C01', 'C06'], pretty='bloc::FORStatement::doit', canaries=['normal', 'exceptional'],
+                  structs=DEFAULT_STRUCTS + ['bloc::Symbol', 'bloc::Context', 'bloc::Executable']))
     return J
 
 def known_findings():
